@@ -65,8 +65,21 @@ func c15CheckCLI(c *mc.Ctx, box *cliBox, cs c15CLICase) {
 		case "window":
 			window(cs.Start, cs.Len)
 		case "pos":
-			for _, p := range cs.Pos {
-				window(p, 1)
+			// the requested positions are positions of the reference AS GIVEN: they are converted to columns
+			// of the input before anything is masked (masking may put a gap into the reference row itself)
+			cols := make([]int, len(cs.Pos))
+			for i, p := range cs.Pos {
+				cols[i] = p
+				if cs.Ref != "" {
+					if cols[i], _, lerr = al.RefCoordinates(cs.Ref, p, 1); lerr != nil {
+						return
+					}
+				}
+			}
+			for _, col := range cols {
+				if lerr == nil {
+					lerr = al.Mask(cs.Ref, col, 1, repl, cs.NoGap, cs.NoRef)
+				}
 			}
 		case "unique":
 			lerr = al.MaskOccurences(cs.Ref, cs.AtMost, repl)
